@@ -118,6 +118,10 @@ def _build(cfg):
     return sch, env, agent, log, rlmod
 
 
+class InjectedBatchFault(Exception):
+    pass
+
+
 def run_schedule(cfg, prefix, max_steps=400, lenient=False):
     """One controlled run; returns the observation dict (schedule actually followed, enabled masks, logs)."""
     import threading as real_threading
@@ -128,17 +132,24 @@ def run_schedule(cfg, prefix, max_steps=400, lenient=False):
     _HOLDER["ctl"] = ctl
     executed, session_ends, m_exc = [], [], None
     b = 0
+    faults = list(cfg.get("fault_at", []))      # a batch that raises after the sampler was designated (sampler / model / loss failure)
     try:
         for nb in cfg["sessions"]:
-            with sch.session():
-                for _ in range(nb):
-                    s = sch.get_next_sampler()
-                    idx = [i for i, x in enumerate(sch.samplers) if x is s][0]
-                    executed.append((b, idx))
-                    ctl.cur_batch = b
-                    sch.update(b, np.array([[float(b)]]), np.array([cfg["losses"][b]]), None)
-                    ctl.cur_batch = None
-                    b += 1
+            try:
+                with sch.session():
+                    for _ in range(nb):
+                        s = sch.get_next_sampler()
+                        idx = [i for i, x in enumerate(sch.samplers) if x is s][0]
+                        if faults and faults[0] == b:
+                            faults.pop(0)
+                            raise InjectedBatchFault(b)        # the session is closed by session()'s finally; the batch did not run
+                        executed.append((b, idx))
+                        ctl.cur_batch = b
+                        sch.update(b, np.array([[float(b)]]), np.array([cfg["losses"][b]]), None)
+                        ctl.cur_batch = None
+                        b += 1
+            except InjectedBatchFault:
+                pass
             session_ends.append({
                 "aq": [int(x) for x, _ in env._out_queue.items],  # noqa: SLF001
                 "oq": [None if x is None else float(x[1]) for x, _ in env._in_queue.items],  # noqa: SLF001
@@ -322,6 +333,15 @@ def gen_configs(chk):
     for sh in ([3], [2, 1]):
         cfgs.append({"sessions": sh, "losses": loss_seq("zero", 3), "loss_kind": "zero", "nsam": 2, "halton": rng.below(2),
                      "agent": {"kind": "script", "script": [rng.below(2) for _ in range(3)]}, "oracle": True})
+    # a batch that fails after its sampler was designated, then further sessions (retry): the Coq model has no fault step, so these
+    # configurations are judged by the oracle alone ("never learns from an action that was not executed", "no message is left
+    # over", attribution in the sessions that follow)
+    for sh, fa in (([2, 2], [1]), ([1, 2], [0]), ([2, 1, 1], [1, 1]), ([3, 2], [2])):
+        for lk in ("improving", "flat"):
+            nsam = rng.randint(2, 3)
+            cfgs.append({"sessions": sh, "losses": loss_seq(lk, sum(sh)), "loss_kind": lk, "nsam": nsam, "halton": rng.below(nsam),
+                         "agent": {"kind": "script", "script": [rng.below(nsam) for _ in range(rng.randint(3, 5))]},
+                         "oracle": True, "model": False, "fault_at": fa})
     # an agent that returns an index outside the action space: its thread dies (model validation only, no oracle)
     cfgs.append({"sessions": [2, 1], "losses": loss_seq("improving", 3), "loss_kind": "improving", "nsam": 2, "halton": 0,
                  "agent": {"kind": "script", "script": [1, 2, 0]}, "oracle": False})
@@ -353,12 +373,15 @@ def run(chk, replay=None):
         with mp.get_context("fork").Pool(16) as pool:
             results = pool.map(_explore_job, [(c, per_cfg_cap) for c in cfgs], chunksize=1)
     total_cap = 6000 if quick else 200000
-    cases, lits, owner = [], [], []
+    cases, lits, owner, extra = [], [], [], []
     exhaustive = True
     stats = Counter()
     for ci, (cfg, (obs, complete, _dt)) in enumerate(zip(cfgs, results)):
         if not complete:
             exhaustive = False
+        if not cfg.get("model", True):
+            extra += [(ci, o) for o in obs[:400]]
+            continue
         for o in obs:
             if len(cases) >= total_cap:
                 exhaustive = False
@@ -396,6 +419,21 @@ def run(chk, replay=None):
                 worst[clause] = (size, i, case, text, fails)
         if not fails and i in bad and (corr is None or size < corr[0]):
             corr = (size, i, case)
+    # oracle-only configurations (injected batch faults)
+    xrefs = {}
+    for ci, o in extra:
+        cfg = cfgs[ci]
+        ref = xrefs.setdefault(ci, o)
+        stats["fault-configs"] += 1
+        case = {"cfg": cfg, "schedule": o["sched"], "reference_schedule": ref["sched"] if ref is not o else None}
+        fails = oracle(cfg, o, None if ref is o else ref)
+        size = (len(o["sched"]), sum(cfg["sessions"]), len(cases) + len(xrefs))
+        for clause, text in fails:
+            if clause not in worst or size < worst[clause][0]:
+                cases.append(o)
+                owner.append(ci)
+                lits.append("(oracle-only configuration with an injected batch fault)")
+                worst[clause] = (size, len(cases) - 1, case, text, fails)
     for clause, (_, i, case, text, fails) in sorted(worst.items()):
         chk.violation({"kind": "oracle", "clause": clause},
                       {"failed": f"oracle:{clause}: {text}", "all": [f"{c}: {t}" for c, t in fails], "case": case,
